@@ -416,6 +416,30 @@ def rule_r5(rep, program: Program):
                             r.violate(PROP, f"{fn.qualname}:uses-shared-{attr}:{norm(x)[:40]}", f"{fn.qualname} {how} on a path where it has not been reset to a chain-independent value: chains run in one process share the integrator object and {k.name}.update writes `{attr}` every iteration, so a chain's start-up depends on which chain ran before it in the same worker (n_process / scheduling dependent output)", node=x, file=fn.file)
         if n_cons == 0:
             raise AnalysisError(f"{k.name}.initialize: no use of the adapted parameters {sorted(written)} found (anchor vanished)")
+    # the adapter object itself is shared by every chain (and stage) run in a process and is copied
+    # per worker: per-chain quantities live in the adapter state, never on the adapter
+    for k in program.subclasses("Adapter", concrete_only=True):
+        for c in k.mro:
+            for mname, m in c.methods.items():
+                if mname == "__init__" or m.is_setter:
+                    continue
+                stores = []
+                for n in ast.walk(m.node):
+                    tgts = n.targets if isinstance(n, ast.Assign) else [n.target] if isinstance(n, (ast.AugAssign, ast.AnnAssign)) else []
+                    for t in tgts:
+                        for tt in (t.elts if isinstance(t, ast.Tuple) else [t]):
+                            base = tt
+                            while isinstance(base, ast.Subscript):
+                                base = base.value
+                            if is_self_attr(base):
+                                stores.append((n, base.attr))
+                    if isinstance(n, ast.Call) and isinstance(n.func, ast.Attribute) and is_self_attr(n.func.value) and n.func.attr in ("append", "extend", "update", "add", "pop", "clear", "setdefault", "insert", "remove"):
+                        stores.append((n, n.func.value.attr))
+                    if isinstance(n, ast.Call) and norm(n.func) == "setattr" and n.args and norm(n.args[0]) == "self":
+                        stores.append((n, norm(n.args[1]) if len(n.args) > 1 else "?"))
+                r.inst({"adapter method": m.qualname, "stores on self": [a for _, a in stores]})
+                for n, a in stores:
+                    r.violate(PROP, f"{m.qualname}:stores-on-adapter:{a}", f"{m.qualname} writes `self.{a}`: the adapter object is shared by all chains and stages sampled in a process (and copied into each worker), so what one chain stores there is seen by the chains that happen to run after it in the same process - output then depends on where other chains start, on n_process and on the chain-to-worker assignment", node=n, file=m.file)
     return r
 
 
